@@ -1,4 +1,6 @@
 """C16 - programs cannot recurse: LOOP programs always halt, the call stack is bounded."""
+import sys
+
 from .. import harness
 from ..gen import layouts, programs
 from ..ref import bytecode, pipeline
@@ -23,6 +25,22 @@ def plan(tier, seed):
     specs = [{"kind": "loop", "seed": seed, "chunk": i, "n": 50} for i in range(n // 50)]
     specs.append({"kind": "refs", "seed": seed, "reps": 1 if tier == "quick" else 20})
     return specs
+
+
+def small_pool_program(r):
+    """loop nests over very few variables (nested loops counting the same variable), for one-line layouts"""
+    import vlib.gen.programs as P
+    saved = P.VARS
+    try:
+        P.VARS = r.choice([["n", "m"], ["n"], ["n", "m", "k"]])
+        o = programs.Opts(allow_while=False, allow_goto=False, allow_stop=False, count_loops=True, modify_bound=0.4,
+                          max_defs=2, max_depth=4, p_label=0.0, init_vars=False)
+        p = programs.Gen(r, o).program()
+        init = [{"k": "assign", "var": v, "val": ("const", r.randint(1, 4))} for v in P.VARS]
+        p["main"] = init + p["main"]
+        return p
+    finally:
+        P.VARS = saved
 
 
 def loop_program(r):
@@ -90,16 +108,25 @@ def attempts(r):
     return A
 
 
-def work(spec):
+def _work(spec):
     part = harness.new_partial()
     r = common.rng(spec["seed"], "C16", spec.get("chunk", 0))
     items = []
     if spec["kind"] == "loop":
-        for _ in range(spec["n"]):
+        for k_ in range(spec["n"]):
+            if k_ % 5 == 4:
+                p = small_pool_program(r)
+                toks = [t for l in programs.to_lines(p, programs.Speller(r)) for t in l]
+                items.append(({"main": " ".join(toks)}, "main", "loop"))      # the whole program on one line
+                continue
             p = loop_program(r)
             lines = programs.to_lines(p, programs.Speller(r))
-            if r.random() < 0.3:
+            q = r.random()
+            if q < 0.25:
                 files, main = layouts.split_lines(lines, r)
+            elif q < 0.55:
+                # several statements and loop headers per line
+                files, main = {"main": layouts.random_layout([t for l in lines for t in l], r)}, "main"
             else:
                 files, main = {"main": layouts.canonical(lines)}, "main"
             items.append((files, main, "loop"))
@@ -192,5 +219,21 @@ def work(spec):
     return part
 
 
+
+
+def work(spec):
+    part = _work(spec)
+    for v in part["violations"]:
+        if isinstance(v.get("case"), dict):
+            v["case"]["spec"] = spec
+    return part
+
+
 def replay(case):
-    return []
+    """re-run the chunk the stored case came from and report the violations with the same signature family"""
+    if "spec" not in case:
+        return []
+    from .. import harness as _h
+    if hasattr(sys.modules[__name__], "plan") and case["spec"].get("kind") in ("seq", "conc"):
+        plan("quick", case["spec"].get("seed", 1))   # C18: baselines are computed in plan()
+    return _work(case["spec"])["violations"]
